@@ -98,7 +98,8 @@ class DSDLDefinition(ReadableDSDLFile):
 
         # INFERENCE 2: The next easiest inference is when the target path is relative to a known dsdl root. These
         # operations should work with pure paths and not require filesystem access.
-        resolved_dsdl_path = dsdl_path.resolve(strict=False) if dsdl_path.is_absolute() else None
+        # A relative path is relative to the current working directory unless proven otherwise (see INFERENCE 3).
+        resolved_dsdl_path = dsdl_path.resolve(strict=False)
         for path_to_root in valid_dsdl_roots:
             # First we try the paths as-is...
             try:
@@ -107,15 +108,14 @@ class DSDLDefinition(ReadableDSDLFile):
                 pass
             else:
                 return path_to_root
-            # then we try resolving the root path if it is absolute
-            if path_to_root.is_absolute() and resolved_dsdl_path is not None:
-                path_to_root_resolved = path_to_root.resolve(strict=False)
-                try:
-                    _ = resolved_dsdl_path.relative_to(path_to_root_resolved).parent
-                except ValueError:
-                    pass
-                else:
-                    return path_to_root_resolved
+            # then we try resolving both paths, which also covers an absolute target with a relative root and vice versa
+            path_to_root_resolved = path_to_root.resolve(strict=False)
+            try:
+                _ = resolved_dsdl_path.relative_to(path_to_root_resolved).parent
+            except ValueError:
+                pass
+            else:
+                return path_to_root_resolved
 
         # INFERENCE 3: If the target is relative then we can try to find a valid root by looking for the file in the
         # root directories. This is a stronger inference than the previous one because it requires the file to exist
@@ -165,10 +165,17 @@ class DSDLDefinition(ReadableDSDLFile):
         :raises InvalidDefinitionError: If the file does not exist.
         """
         root_path = cls._infer_path_to_root_from_first_found(dsdl_path, valid_dsdl_roots)
-        if not dsdl_path.is_absolute():
-            dsdl_path_resolved = (root_path.parent / dsdl_path).resolve(strict=False)
+        if dsdl_path.is_absolute():
+            dsdl_path_resolved = dsdl_path.resolve(strict=False)
         else:
             dsdl_path_resolved = dsdl_path.resolve(strict=False)
+            try:
+                # The target, taken relative to the current working directory, is located under the root, so it already
+                # contains the path to the root: use it as is.
+                _ = dsdl_path_resolved.relative_to(root_path.resolve(strict=False))
+            except ValueError:
+                # Otherwise the target is relative to the directory that contains the root namespace directory.
+                dsdl_path_resolved = (root_path.parent / dsdl_path).resolve(strict=False)
         return cls(dsdl_path_resolved, root_path)
 
     def __init__(self, file_path: Path, root_namespace_path: Path):
